@@ -17,6 +17,7 @@ EXPLANATION = (
     "constructed only as Unsupported / ToxicGraph / Io / Dataset. (R6.4) panic audit of the canonicalisation functions: each "
     "unwrap/index is auto-discharged or audited by exact key. (R6.5) in Hash N-Degree Quads every occurrence of a related blank "
     "node is appended to Hn[hash] (the push post-dominates the related-hash computation: no de-duplication, step 3.1.2). "
+    "(R6.6) each permutation issues temporary identifiers on its own clone of the issuer (step 5.4.2). "
     "NOT decided: equality with the W3C algorithm's output (hash inputs, "
     "path comparison and pruning, issuer copies).")
 
@@ -343,9 +344,53 @@ def related_list_rule(ck, facts):
         ck.ok("R6.5", "hash_n_degree_quads: every related blank node occurrence is appended to Hn[hash] (push post-dominates the hash)")
 
 
+def issuer_copy_rule(ck, facts):
+    """R6.6 (RDFC-1.0 Hash N-Degree Quads step 5.4.2): every permutation works on its *own* copy of the issuer: in the
+    closure evaluated per permutation, each `BnodeIssuer::issue` call mutates an issuer obtained by `clone()` inside that same
+    closure invocation, never an issuer captured from outside (identifiers issued while trying one permutation would leak
+    into the next ones, and the chosen path would depend on the order in which permutations are tried)."""
+    from mirutil import root_local
+    fns = facts.find_fns(crate="sophia_c14n", name_re=r"C14nState::<'_, H, T>::hash_n_degree_quads$")
+    if len(fns) != 1:
+        ck.bad("R6.6", "R6.6@hash_n_degree_quads#anchor", "anchor-missing (%d)" % len(fns))
+        return
+    fn = fns[0]
+    perm_closures = []
+    for bi, t in fn.calls():
+        if call_name_matches(t, r"for_each_permutation_of$|_permutations::\w+$") and len(t["args"]) >= 2:
+            clo = fn.origin(t["args"][-1])
+            if clo[0] == "agg" and clo[1].get("k") == "closure":
+                perm_closures.append(facts.fns.get(clo[1]["def"]))
+    perm_closures = [c for c in perm_closures if c is not None]
+    if len(perm_closures) != 1:
+        ck.bad("R6.6", "R6.6@hash_n_degree_quads#closure", "expected one per-permutation closure (found %d)" % len(perm_closures), fn.loc)
+        return
+    c = perm_closures[0]
+    issues = [(bi, t) for bi, t in c.calls() if call_name_matches(t, r"BnodeIssuer::issue$")]
+    if not issues:
+        ck.bad("R6.6", "R6.6@hash_n_degree_quads#no-issue", "the per-permutation closure issues no identifier", c.loc)
+        return
+    bad = []
+    for bi, t in issues:
+        l, path = root_local(c, t["args"][0])
+        # a local of the closure body (created anew at every invocation), first initialised by `clone()`; not a capture
+        defs = c.defs().get(l, []) if l is not None else []
+        fresh = l is not None and l > c.argc and any(rv[0] == "call" and call_name_matches(rv[1], r"clone::Clone>?::clone$")
+                                                      for _, _, rv in defs)
+        if not fresh:
+            bad.append("%s:%s" % (t["file"], t["line"]))
+    if bad:
+        ck.bad("R6.6", "R6.6@hash_n_degree_quads#shared-issuer", "the per-permutation closure issues identifiers on an issuer that is not a "
+               "copy made for this permutation (captured from outside): temporary identifiers leak from one permutation into the next",
+               bad[0])
+    else:
+        ck.ok("R6.6", "each permutation issues identifiers on its own clone of the issuer (%d issue sites)" % len(issues))
+
+
 def run(ck, facts, tier):
     facts.require_crates(["sophia_c14n"])
     related_list_rule(ck, facts)
+    issuer_copy_rule(ck, facts)
     escape_rule(ck, facts)
     safeguards_rule(ck, facts)
     unsupported_rule(ck, facts)
